@@ -102,14 +102,14 @@ func codecErr(err error) string {
 	return "other"
 }
 
-func hx(b []byte) string {
+func cdHx(b []byte) string {
 	if len(b) == 0 {
 		return "-"
 	}
 	return hex.EncodeToString(b)
 }
 
-func unhx(s string) []byte {
+func cdUnhx(s string) []byte {
 	if s == "-" {
 		return nil
 	}
@@ -146,7 +146,7 @@ func (e *codecEnv) reset() {
 func (e *codecEnv) out() string {
 	b := e.st.out[e.outMark:]
 	e.outMark = len(e.st.out)
-	return hx(b)
+	return cdHx(b)
 }
 
 func (e *codecEnv) rline(status, arg string) {
@@ -161,7 +161,7 @@ func readRes(err error, item []byte) string {
 	if err != nil {
 		return "err " + codecErr(err)
 	}
-	return "item " + hx(item)
+	return "item " + cdHx(item)
 }
 
 // guardCodec runs f; "" = returned normally, otherwise "panic" or "stuck".
@@ -215,7 +215,7 @@ func codecRun(script []string, w *bufio.Writer) {
 			e.reset()
 			fmt.Fprintf(w, "< new %d %d %d\n", frame.HeaderLen, frame.MaxPayloadLength, e.src.Cap())
 		case "feed":
-			e.st.feed(unhx(f[1]))
+			e.st.feed(cdUnhx(f[1]))
 			fmt.Fprintf(w, "< ok\n")
 		case "eof":
 			e.st.eof = true
@@ -265,7 +265,7 @@ func codecRun(script []string, w *bufio.Writer) {
 			}
 			var n int
 			var err error
-			if p := guardCodec(func() { n, err = e.conn.WriteNext(unhx(f[1])) }); p != "" {
+			if p := guardCodec(func() { n, err = e.conn.WriteNext(cdUnhx(f[1])) }); p != "" {
 				e.wline("panic", 0, "nil")
 				break
 			}
@@ -277,7 +277,7 @@ func codecRun(script []string, w *bufio.Writer) {
 			}
 			e.wPending = true
 			if p := guardCodec(func() {
-				e.conn.AsyncWriteNext(unhx(f[1]), func(err error, n int) { e.wRes = fmt.Sprintf("%d %s", n, codecErr(err)) })
+				e.conn.AsyncWriteNext(cdUnhx(f[1]), func(err error, n int) { e.wRes = fmt.Sprintf("%d %s", n, codecErr(err)) })
 			}); p != "" {
 				e.wPending = false
 				e.wRes = ""
@@ -437,7 +437,7 @@ func codecGen(r *rng, maxops int, w *bufio.Writer) {
 		switch r.intn(3) {
 		case 0: // everything queued first, then read until would-block
 			for _, s := range segs {
-				emit("feed " + hx(s))
+				emit("feed " + cdHx(s))
 			}
 			for i := 0; i < nf+1; i++ {
 				emit(rd())
@@ -447,7 +447,7 @@ func codecGen(r *rng, maxops int, w *bufio.Writer) {
 			}
 		case 1: // a read between the segments: would-block in the middle of an item
 			for _, s := range segs {
-				emit("feed " + hx(s))
+				emit("feed " + cdHx(s))
 				if r.intn(2) == 0 {
 					emit(rd())
 				}
@@ -462,7 +462,7 @@ func codecGen(r *rng, maxops int, w *bufio.Writer) {
 		default: // asynchronous read first, data arrives afterwards
 			emit(rd())
 			for _, s := range segs {
-				emit("feed " + hx(s))
+				emit("feed " + cdHx(s))
 				emit("pump")
 				if r.intn(3) == 0 {
 					emit(rd())
@@ -489,7 +489,7 @@ func codecGen(r *rng, maxops int, w *bufio.Writer) {
 				if r.intn(6) == 0 {
 					emit(fmt.Sprintf("defer %d", r.intn(2)))
 				}
-				emit(wr() + " " + hx(r.bytes(codecPayloadSize(r, big))))
+				emit(wr() + " " + cdHx(r.bytes(codecPayloadSize(r, big))))
 				if r.intn(2) == 0 {
 					emit("pump")
 				}
@@ -520,7 +520,7 @@ func codecGen(r *rng, maxops int, w *bufio.Writer) {
 			}
 		}
 		for _, s := range codecSplit(r, b, 16) {
-			emit("feed " + hx(s))
+			emit("feed " + cdHx(s))
 			if r.intn(2) == 0 {
 				emit(rd())
 			}
@@ -536,7 +536,7 @@ func codecGen(r *rng, maxops int, w *bufio.Writer) {
 			hdr = append(hdr, r.bytes(r.intn(6))...)
 		}
 		for _, s := range codecSplit(r, hdr, 8) {
-			emit("feed " + hx(s))
+			emit("feed " + cdHx(s))
 			if r.intn(3) == 0 {
 				emit(rd())
 			}
@@ -553,8 +553,8 @@ func codecGen(r *rng, maxops int, w *bufio.Writer) {
 		if r.intn(100) == 0 { // a prefix declaring exactly the limit (or one less) is accepted: space is reserved
 			hdr := make([]byte, 4)
 			binary.BigEndian.PutUint32(hdr, uint32(frame.MaxPayloadLength-r.intn(2)))
-			emit("feed " + hx(hdr[:2]))
-			emit("feed " + hx(hdr[2:]))
+			emit("feed " + cdHx(hdr[:2]))
+			emit("feed " + cdHx(hdr[2:]))
 			emit(rd())
 		} else {
 			emit("eof")
@@ -614,7 +614,7 @@ func codecEnum(args []string, w *bufio.Writer) {
 					}
 					if mode%2 == 0 {
 						for _, s := range segs {
-							fmt.Fprintf(w, "! feed %s\n", hx(s))
+							fmt.Fprintf(w, "! feed %s\n", cdHx(s))
 						}
 						for i := 0; i < len(ps)+1; i++ {
 							fmt.Fprintf(w, "! %s\n", rd)
@@ -625,7 +625,7 @@ func codecEnum(args []string, w *bufio.Writer) {
 							fmt.Fprintf(w, "! aread\n")
 						}
 						for _, s := range segs {
-							fmt.Fprintf(w, "! feed %s\n", hx(s))
+							fmt.Fprintf(w, "! feed %s\n", cdHx(s))
 							if mode == 3 {
 								fmt.Fprintf(w, "! pump\n! aread\n")
 							} else {
